@@ -82,6 +82,7 @@ package operator
 //@   props C09
 //@   requires wfRegion(region)
 //@   ensures forall p *metapb.Peer :: firstOnStore(region.voters, pl.ToStore, p) ==> result == ite(pid(p) == pl.PeerID, 1, 0)
+//@   ensures [judged-on-the-first-voter-of-the-store] exists p *metapb.Peer :: firstOnStore(region.voters, pl.ToStore, p) && result == ite(pid(p) == pl.PeerID, 1, 0)
 //@   modifies nothing
 
 // RemovePeer: accounted iff no peer (of any role) is left on the store, or a different peer than the named one is there.
@@ -101,6 +102,7 @@ package operator
 //@   props C09
 //@   requires wfRegion(region)
 //@   ensures forall p *metapb.Peer :: firstOnStore(region.learners, dv.ToStore, p) ==> (result <==> pid(p) == dv.PeerID)
+//@   ensures [judged-on-the-first-learner-of-the-store] exists p *metapb.Peer :: firstOnStore(region.learners, dv.ToStore, p) && (result <==> pid(p) == dv.PeerID)
 //@   modifies nothing
 
 //@ func (MergeRegion).ConfVerChanged
@@ -174,6 +176,7 @@ package operator
 //@   ensures [all-or-nothing] result == 0 || result == len(cpl.PromoteLearners) + len(cpl.DemoteVoters)
 //@   ensures [accounted-promote] result != 0 ==> forall k :: 0 <= k && k < len(cpl.PromoteLearners) ==> promotedV(region, cpl.PromoteLearners[k])
 //@   ensures [accounted-demote] result != 0 ==> forall k :: 0 <= k && k < len(cpl.DemoteVoters) ==> demotedV(region, cpl.DemoteVoters[k])
+//@   ensures [fully-applied-transition-is-fully-accounted] (forall k :: {cpl.PromoteLearners[k]} 0 <= k && k < len(cpl.PromoteLearners) ==> promotedV(region, cpl.PromoteLearners[k])) && (forall k :: {cpl.DemoteVoters[k]} 0 <= k && k < len(cpl.DemoteVoters) ==> demotedV(region, cpl.DemoteVoters[k])) ==> result == len(cpl.PromoteLearners) + len(cpl.DemoteVoters)
 //@   loop 1 invariant forall k :: 0 <= k && k <= rangeindex ==> promotedV(region, cpl.PromoteLearners[k])
 //@   loop 2 invariant forall k :: 0 <= k && k < len(cpl.PromoteLearners) ==> promotedV(region, cpl.PromoteLearners[k])
 //@   loop 2 invariant forall k :: 0 <= k && k <= rangeindex ==> demotedV(region, cpl.DemoteVoters[k])
